@@ -74,17 +74,17 @@ def _convert(stmts, sink, in_loop=False):
             if bt and ot:
                 b, _ = _convert(st.body, sink)
                 o, _ = _convert(st.orelse, sink)
-                out.append(ast.If(test=st.test, body=b, orelse=o))
+                out.append(ast.If(test=st.test, body=b or [ast.Pass()], orelse=o))
                 return out, True
             if bt:
                 b, _ = _convert(st.body, sink)
                 o, term = _convert(list(st.orelse) + list(rest), sink)
-                out.append(ast.If(test=st.test, body=b, orelse=o))
+                out.append(ast.If(test=st.test, body=b or [ast.Pass()], orelse=o))
                 return out, term
             if ot:
                 o, _ = _convert(st.orelse, sink)
                 b, term = _convert(list(st.body) + list(rest), sink)
-                out.append(ast.If(test=st.test, body=b, orelse=o))
+                out.append(ast.If(test=st.test, body=b or [ast.Pass()], orelse=o))
                 return out, term
             raise NotInlinable("return in a branch that may fall through")
         if isinstance(st, ast.Try):
@@ -807,10 +807,17 @@ def build_overlay(ctx):
                 if not holder:
                     holder.append(ast.Pass())
                 by_module[h.module.rel] = h.module
+    def _fill_empty_bodies(tree):
+        for n in ast.walk(tree):
+            for fld in ("body",):
+                blk = getattr(n, fld, None)
+                if isinstance(blk, list) and not blk and isinstance(n, (ast.If, ast.For, ast.While, ast.With, ast.Try, ast.FunctionDef, ast.ClassDef, ast.ExceptHandler)):
+                    blk.append(ast.Pass())
     overlay = {}
     for rel, m in by_module.items():
 
         tree = m.tree if hasattr(m, "tree") else ctx.repo.ast(rel)
+        _fill_empty_bodies(tree)
         ast.fix_missing_locations(tree)
         overlay[rel] = ast.unparse(tree) + "\n"
     return overlay, touched
